@@ -466,8 +466,34 @@ func init() {
 	})
 }
 
+func init() {
+	// a macro of another template that renders a block of the caller (block('b') names what the template being rendered
+	// defines): the block is the caller's, and so is what it reaches through _self
+	c11Special = append(c11Special, func() []gen.Node {
+		return []gen.Node{&gen.NImport{Tpl: str("lib3"), Alias: "f"}, &gen.NFrom{Tpl: str("lib3"), Names: [][2]string{{"frame", "fr"}}}, c11macro("local", 1),
+			&gen.NBlock{Name: "b", Body: []gen.Node{tx("B("), pr(&gen.EMethod{X: nm("_self"), Name: "local", Args: []gen.Expr{str("from-b")}}), tx(")")}}, tx(";"),
+			pr(&gen.EMethod{X: nm("f"), Name: "frame", Args: []gen.Expr{str("x")}}), tx(";"), pr(&gen.ECall{Fn: "fr", Args: []gen.Expr{str("y")}}), tx(";"),
+			pr(&gen.EMethod{X: nm("_self"), Name: "local", Args: []gen.Expr{str("after")}})}
+	})
+}
+
+func init() {
+	// a library without macros is a library all the same: its alias is bound (to nothing callable), an alias that
+	// meant another library before means this one now
+	call := func(x, m, a string) gen.Node { return pr(&gen.EMethod{X: nm(x), Name: m, Args: []gen.Expr{str(a)}}) }
+	c11Special = append(c11Special, func() []gen.Node {
+		return []gen.Node{&gen.NImport{Tpl: str("lib"), Alias: "L"}, call("L", "m", "a"), tx("|"), &gen.NImport{Tpl: str("nomacros"), Alias: "L"}, call("L", "m", "b"), tx("never")}
+	}, func() []gen.Node {
+		return []gen.Node{tx("a"), &gen.NImport{Tpl: str("nomacros"), Alias: "E"}, tx("b"), call("E", "anything", "x"), tx("never")}
+	}, func() []gen.Node {
+		return []gen.Node{&gen.NImport{Tpl: str("lib"), Alias: "L"}, &gen.NFor{Val: "i", Seq: &gen.EArr{Els: []gen.Expr{num(1), num(2)}}, Body: []gen.Node{call("L", "m", "a"), &gen.NImport{Tpl: str("nomacros"), Alias: "L"}}}, tx("never")}
+	})
+}
+
 func (p *c11) buildSpecial(j int) (*Program, string) {
 	ts := map[string]*gen.Template{"main": tpl("main", c11Special[j]()...), "lib": tpl("lib", c11macro("m", 1)),
+		"nomacros": tpl("nomacros", tx("no macros here"), &gen.NBlock{Name: "nb", Body: []gen.Node{tx("nor here")}}),
+		"lib3": tpl("lib3", &gen.NMacro{Name: "frame", Params: []string{"t"}, Body: []gen.Node{tx("["), pr(nm("t")), tx(":"), pr(&gen.EBlockFn{Name: str("b")}), tx("]")}}),
 		"lib2": tpl("lib2", c11macro("top", 1), &gen.NIf{Conds: []gen.Expr{&gen.EBool{V: true}}, Bodies: [][]gen.Node{{c11macro("inif", 1)}}}, &gen.NBlock{Name: "blk", Body: []gen.Node{c11macro("inblock", 1)}},
 			&gen.NFor{Val: "i", Seq: &gen.EArr{Els: []gen.Expr{num(1)}}, Body: []gen.Node{c11macro("infor", 1)}})}
 	return &Program{Templates: ts, Main: "main", Ctx: map[string]interface{}{}}, fmt.Sprintf("special/%d", j)
